@@ -142,12 +142,12 @@ impl PC {
             res is Ok ==> final(rng->Some_0).pos@ == open_rpos(ck, labeled_polynomials@, commitments@, *point, old(sponge).st@, states@, old(rng->Some_0).id@, old(rng->Some_0).pos@)
                 && final(rng->Some_0).id == old(rng->Some_0).id && final(rng->Some_0).present == old(rng->Some_0).present { unimplemented!() }
 
-//@fn id=lib.batch_open file=poly-commit/src/lib.rs scope="pub trait PolynomialCommitment<F: PrimeField, P: Polynomial<F>>: Sized" name=batch_open props=C11,C01,C05
+//@fn id=lib.batch_open file=poly-commit/src/lib.rs scope="pub trait PolynomialCommitment<F: PrimeField, P: Polynomial<F>>: Sized" name=batch_open props=C11,C01,C05,C17
     #[verifier::loop_isolation(false)]
     fn batch_open<'a>(ck: &CK, labeled_polynomials: Vec<&'a LabeledPolynomial>, commitments: Vec<&'a LabeledCommitment<Comm>>, query_set: &BTreeSet<(String, (String, Pt))>, sponge: &mut Sponge, states: Vec<&'a St>, rng: Option<&mut Rng>) -> (res: Result<BatchProof, Error>)
     ensures
         bopen_post(ck, labeled_polynomials@, commitments@, query_set@, states@, old(sponge).st@,
-            (if rng is Some { Some((old(rng->Some_0).id@, old(rng->Some_0).pos@)) } else { None }), res, final(sponge).st@),   // name=lib.batch_open.one_per_point_proof_per_group_in_verifier_order props=C11,C01,C05
+            (if rng is Some { Some((old(rng->Some_0).id@, old(rng->Some_0).pos@)) } else { None }), res, final(sponge).st@),   // name=lib.batch_open.one_per_point_proof_per_group_in_verifier_order props=C11,C01,C05,C17
 //@body
 //@rw 1 /&mut optional_rng::OptionalRng\(rng\)/ => &mut optional_rng_wrap(rng)
 //@rw 1 /(?s)let poly_st_comm: BTreeMap<_, _> = (labeled_polynomials.*?)\.collect\(\);/ => let tv__: Vec<(&String, (&LabeledPolynomial, &St, &LabeledCommitment<Comm>))> = \1.collect();
